@@ -16,12 +16,12 @@ variable (secret : K) (coeff : Nat → K) (nonce ctx payload : Bytes) (keypairs 
 variable (cfg : Config) (env : Envelope)
 
 /-- **If sealing accepts a configuration, the private keys of all recipients (in any order, with
-any extra keys) unseal the envelope and get exactly the payload**; every grant that has a keypair
+any extra keys — unrelated ones, or key objects that merely report a recipient's public key) unseal the envelope and get exactly the payload**; every grant that has a keypair
 is reported unlocked and every share placed in such a grant is available. -/
 theorem accepted_openable (hP : PrimsLaw P) (hS : FieldSetting dec enc (buildTotal keypairs.length cfg))
     (hb : build P (fieldScalars K dec enc) secret coeff nonce ctx payload keypairs cfg = .ok env)
     (hn : nonce.length = 24) (hw : cfg.totalShares < 2 ^ 32 ∧ cfg.grants.length ≤ 2 ^ 32)
-    (sks : List Bytes) (hall : ∀ pk ∈ keypairs, ∃ sk ∈ sks, P.pub sk = pk) :
+    (sks : List Bytes) (hall : ∀ pk ∈ keypairs, ∃ sk ∈ sks, P.genuine sk = true ∧ P.pub sk = pk) :
     unlock P (fieldScalars K dec enc) ctx env sks = .opened payload
       { success := true
         sharesAvailable := usableShares cfg.grants (buildTotal keypairs.length cfg)
@@ -41,8 +41,8 @@ theorem reach_le_usable (sks : List Bytes) (n : ℕ) :
   Envelope.reach_le_usable P keypairs sks cfg.grants n
 
 /-- **Configurations under which no set of recipient keys could ever reach threshold+1 shares are
-rejected at seal time** (every recipient public key being the public key of some private key). -/
-theorem unopenable_rejected (hkeys : ∀ pk ∈ keypairs, ∃ sk, P.pub sk = pk)
+rejected at seal time** (every recipient public key being the public key of some genuine private key). -/
+theorem unopenable_rejected (hkeys : ∀ pk ∈ keypairs, ∃ sk, P.genuine sk = true ∧ P.pub sk = pk)
     (hno : ∀ sks : List Bytes,
       reachCount (canOpen P keypairs sks) cfg.grants (buildTotal keypairs.length cfg) < cfg.threshold + 1) :
     ∀ env, build P (fieldScalars K dec enc) secret coeff nonce ctx payload keypairs cfg ≠ .ok env := by
